@@ -37,6 +37,8 @@ func TopologicalSort[S ~[]V, Index comparable, V any](slice S, queryIndexHandler
 
 	var sorted = make([]V, 0, len(slice))
 	var visited = make(map[Index]bool)
+	var visiting = make(map[Index]bool)
+	var circular bool
 
 	var visit func(node *topologicalSortNode[V])
 	visit = func(node *topologicalSortNode[V]) {
@@ -44,10 +46,16 @@ func TopologicalSort[S ~[]V, Index comparable, V any](slice S, queryIndexHandler
 		if node == nil || visited[index] {
 			return
 		}
-		visited[index] = true
+		if visiting[index] {
+			circular = true // reached again while still being expanded: a dependency cycle
+			return
+		}
+		visiting[index] = true
 		for _, n := range node.dependsOn {
 			visit(n)
 		}
+		visiting[index] = false
+		visited[index] = true
 		sorted = append(sorted, node.value)
 	}
 
@@ -55,7 +63,7 @@ func TopologicalSort[S ~[]V, Index comparable, V any](slice S, queryIndexHandler
 		visit(node)
 	}
 
-	if len(sorted) != len(slice) {
+	if circular || len(sorted) != len(slice) {
 		return nil, ErrCircularDependencyDetected
 	}
 
